@@ -34,6 +34,9 @@ def cases(tier, seed):
         w = writers[i % len(writers)]
         out.append(dict(writer=w, depth=R.choice([1, 2, 2, 3] if tier == "quick" else [1, 2, 3, 4]), mode=R.choice(["F32", "F64"]) if w != "write_image_int" else R.choice(["I16", "I32"]),
                         par=R.choice([1, 4]), via=R.choice(["cascade_images", "builder"]), seed=R.randrange(1 << 30), fill=R.choice([0.2, 0.5, 1.0])))
+    for i in range(8 if tier == "quick" else 120):
+        out.append(dict(writer="write_image", depth=R.choice([1, 2, 3]), mode=R.choice(["F32", "F64", "I16"]), par=R.choice([1, 2]), via="builder", seed=R.randrange(1 << 30), fill=0.4,
+                        second_round=R.choice(["same_builder", "restored_builder"])))
     for i in range(3 if tier == "quick" else 30):
         out.append(dict(writer="tile_fits", depth=0, mode="F32", par=R.choice([1, 2]), via="tile_fits", seed=R.randrange(1 << 30), fill=1.0, tan=(i % 3 != 2)))
     return out
@@ -234,6 +237,42 @@ def run_case(spec, workdir):
         wt = 1
         if not close(wlo, lo) or not close(whi, hi):
             probs.append("WTML DataMin/DataMax = %r/%r, full-resolution range %r/%r" % (wlo, whi, lo, hi))
+    if spec.get("second_round") and not probs and (0, 0, 0) in tr:
+        # more data arrive (wider range), and the pyramid is cascaded again: by the same Builder object, or by a new one
+        # whose description was restored from the index_rel.wtml written the first time
+        from toasty.builder import Builder
+        from toasty.image import Image
+        from toasty.pyramid import Pos
+
+        free = [p for p in rq.all_positions(depth, depth) if p not in leaves] or sorted(leaves)[:1]
+        for p in free[:2]:
+            dt = DT[spec["mode"]]
+            a = (rng.normal(size=(256, 256)) * 50 + 4000).astype(dt) if np.dtype(dt).kind == "f" else rng.integers(25000, 32000, (256, 256)).astype(dt)
+            if np.dtype(dt).kind == "f":
+                a[0, 0] = -9000.5
+            pio.write_image(Pos(*p), Image.from_array(a, default_format="fits"))
+        b2 = b
+        if spec["second_round"] == "restored_builder":
+            from wwt_data_formats.folder import Folder
+
+            b2 = Builder(pio)
+            item = Folder.from_file(os.path.join(base, "index_rel.wtml")).children[0]
+            b2.place = item
+            b2.imgset = item.foreground_image_set
+        b2.cascade(parallel=1)
+        b2.write_index_rel_wtml()
+        tr = true_ranges(base, depth)
+        lo, hi = tr[(0, 0, 0)]
+        for p in sorted(tilegen.list_tiles(base, "fits")):
+            h = fits.getheader(os.path.join(base, tilegen.tile_relpath(p, "fits")))
+            if p in tr and (not close(h.get("DATAMIN", np.nan), tr[p][0]) or not close(h.get("DATAMAX", np.nan), tr[p][1])):
+                probs.append("after the second cascade, tile %s: DATAMIN/DATAMAX = %r/%r, leaves beneath span %r/%r" % (p, h.get("DATAMIN"), h.get("DATAMAX"), tr[p][0], tr[p][1]))
+        if not close(b2.imgset.data_min, lo) or not close(b2.imgset.data_max, hi):
+            probs.append("after the second cascade (%s) ImageSet.data_min/max = %r/%r, full-resolution range %r/%r" % (spec["second_round"], b2.imgset.data_min, b2.imgset.data_max, lo, hi))
+        iset = next(ET.parse(os.path.join(base, "index_rel.wtml")).getroot().iter("ImageSet"))
+        if not close(float(iset.get("DataMin", 0.0)), lo) or not close(float(iset.get("DataMax", 0.0)), hi):
+            probs.append("after the second cascade (%s) WTML DataMin/DataMax = %s/%s, full-resolution range %r/%r" % (spec["second_round"], iset.get("DataMin"), iset.get("DataMax"), lo, hi))
+        wt += 1
     distinct_ranges = len({tr[p] for p in leaves if p in tr})
     res = dict(counters={"pyramids": 1, "headers_checked": n, "wtml_checked": wt, "writer_" + spec["writer"]: 1, "par_%d" % par: 1},
                nontrivial=(depth >= 2 or distinct_ranges >= 2) and len(tr) >= 2,
